@@ -4,8 +4,8 @@ tornado.queues classes over a virtual loop against mc.syncmodel.RefQueue."""
 from mc.core import Check
 from mc import syncmodel
 
-OPS = [("put", 1, None), ("put", 0, "td"), ("put", 2, None), ("put", 4, "zero"), ("put_nowait", 3), ("put_nowait", 0),
-       ("get", None), ("get", "td"), ("get", "zero"), ("get_nowait",), ("task_done",), ("join", None), ("join", "td"),
+OPS = [("put", 1, None), ("put", 0, "td"), ("put", 2, None), ("put", 4, "zero"), ("put", 5, "abs"), ("put_nowait", 3), ("put_nowait", 0),
+       ("get", None), ("get", "td"), ("get", "zero"), ("get", "abs"), ("get_nowait",), ("task_done",), ("join", None), ("join", "td"),
        ("cancel", 0), ("cancel", -1), ("adv",)]
 KINDS = ("fifo", "lifo", "prio")
 BURST_OPS = [("put_nowait", 3), ("get_nowait",), ("task_done",), ("join", None)]
